@@ -12,18 +12,37 @@ pub fn run(args: &[String]) -> i32 {
     let size = get("--size-limit", "none"); // none | under | over
     let filter = get("--filter", "none"); // none | accept | reject
     let ignored = get("--ignored", "0") == "1";
+    let follow = get("--follow", "0") == "1";
+    let symlink = get("--symlink", "0") == "1";
+    let ign_link = get("--ignored-link", "0") == "1";
+    let ign_res = get("--ignored-resolved", "0") == "1";
     let root = std::env::temp_dir().join(format!("rgsmt-walk-{}", std::process::id()));
     let _ = std::fs::remove_dir_all(&root);
     std::fs::create_dir_all(root.join("d")).unwrap();
     std::fs::write(root.join("f.txt"), b"12345").unwrap();
     std::fs::write(root.join("d").join("g.txt"), b"1").unwrap();
-    let target = if is_dir { "d" } else { "f.txt" };
-    if ignored {
+    let target = if symlink { "lnk" } else if is_dir { "d" } else { "f.txt" };
+    if symlink {
+        // the entry of interest is a symbolic link (to the directory d or to the file f.txt)
+        #[cfg(unix)]
+        std::os::unix::fs::symlink(root.join(if is_dir { "d" } else { "f.txt" }), root.join("lnk")).unwrap();
+        // ignore rules that tell the link itself (not a directory) from what it
+        // resolves to (a directory): `lnk/` matches only a directory
+        let rules = match (ign_link, ign_res) {
+            (true, true) => "lnk\n",
+            (false, true) => "lnk/\n",
+            (true, false) => "lnk\n!lnk/\n",
+            (false, false) => "",
+        };
+        if !rules.is_empty() {
+            std::fs::write(root.join(".ignore"), rules).unwrap();
+        }
+    } else if ignored {
         std::fs::write(root.join(".ignore"), format!("{}\n", target)).unwrap();
     }
     let mk = || {
         let mut b = ignore::WalkBuilder::new(&root);
-        b.hidden(false).git_ignore(false).git_global(false).git_exclude(false).parents(false).threads(2);
+        b.hidden(false).git_ignore(false).git_global(false).git_exclude(false).parents(false).threads(2).follow_links(follow);
         match size.as_str() {
             "under" => {
                 b.max_filesize(Some(100));
